@@ -177,6 +177,16 @@ func (t *Task) overBudget(site int32) {
 	panic(&Abort{Kind: "steps", Site: best, Detail: fmt.Sprintf("no return after %d steps", steps)})
 }
 
+// T is called between statements: a scheduling point only (no step is counted).
+func T(site int32) {
+	if sched == nil {
+		return
+	}
+	if t := cur; t != nil {
+		sched.point(t, site, false, 0, false)
+	}
+}
+
 // S is called before every statement that touches a package-level variable.
 func S(site int32, varID int32, write int) {
 	t := cur
